@@ -50,6 +50,8 @@ def op_jdn(op):
         return [Kw("pwait"), op[1]]
     if k == "write-bad":
         return [Kw("write-bad"), op[1], op[2]]
+    if k == "badw":
+        return [Kw("badw"), op[1], op[2], op_jdn(op[3])]
     raise ValueError(op)
 
 
@@ -116,7 +118,10 @@ def make_actions(cfg):
                 if not pr["waited"]:
                     ops += [("pwait", k), ("dl", 2, ("pwait", k))]
             for p in range(npipes):
-                ops += [("write-bad", p, 0.5), ("write-bad", p, 2.5)]
+                ops += [("write-bad", p, 0.5), ("write-bad", p, 2.5), ("badw", p, 0.5, ("sleep", 3)),
+                        ("badw", p, 0.5, ("read", p, 4, None))]
+                if nchan:
+                    ops.append(("badw", p, 0.5, ("take", 0)))
                 ops += [("read", p, 4, None), ("read", p, 4, 2), ("chunk", p, 4, None), ("chunk", p, 4, 2),
                         ("dl", 2, ("read", p, 4, None)), ("write", p, "ab"), ("write", p, "cdefg")]
                 if not m.pipes[p].wclosed:
@@ -128,14 +133,14 @@ def make_actions(cfg):
             busy_p = {i for i, pp in enumerate(m.pipes) if pp.reader is not None and m.live_wid(pp.reader[0], pp.reader[1])}
 
             def reads(o):
-                o2 = o[2] if o[0] == "dl" else o
+                o2 = o[2] if o[0] == "dl" else (o[3] if o[0] == "badw" else o)
                 return o2[1] if o2[0] in ("read", "chunk") else None
             ops = [o for o in ops if reads(o) is None or reads(o) not in busy_p]
             if cfg.get("focus") == "proc":
                 # small alphabet around subprocess waits so that depth 4-6 is affordable
                 def keep(o):
                     o2 = o[2] if o[0] == "dl" else o
-                    return o2[0] == "pwait" or o == ("sleep", 3) or o[0] == "take" or o2[0] == "write-bad"
+                    return o2[0] == "pwait" or o == ("sleep", 3) or o[0] == "take" or o2[0] in ("write-bad", "badw")
                 ops = [o for o in ops if keep(o)]
             acts += [("start", w, o) for o in ops]
         for w in m.blocked():
@@ -162,6 +167,8 @@ def shape(a):
             return "select[" + ",".join(c[0] for c in op[1]) + "]"
         if op[0] in ("read", "chunk"):
             return op[0] + ("+timeout" if op[3] is not None else "")
+        if op[0] == "badw":
+            return "badw(" + osh(op[3]) + ")"
         return op[0]
     return a[0] + (":" + osh(a[2]) if a[0] == "start" else "")
 
@@ -246,12 +253,21 @@ def replay_text(cfg, hist, what):
             return "(ev/write ((pipes %d) 1) %s)" % (op[1], jdn(op[2]))
         if k == "wclose":
             return "(ev/close ((pipes %d) 1))" % op[1]
+        if k == "write-bad":
+            return "(ev/write ((pipes %d) 1) 12345 %s)" % (op[1], op[2])
+        if k == "badw":
+            return "(do (protect (ev/write ((pipes %d) 1) 12345 %s)) %s)" % (op[1], op[2], oe(op[3]))
+        if k == "pwait":
+            return "(os/proc-wait (procs %d))" % op[1]
+    lines.insert(3, '(def procs (seq [_ :range [0 %d]] (os/spawn ["/bin/sh" "-c" "read x; exit 3"] :px {:in :pipe})))' % cfg.get("nprocs", 0))
     for a in hist:
         if a[0] == "start":
             e = oe(a[2])
             lines.append("(start %d %s (fn [] %s))" % (a[1], jdn(e), e))
         elif a[0] == "cancel":
             lines.append("(ev/cancel (fibers %d) :%s) (ev/sleep 0.05)" % (a[1], a[2]))
+        elif a[0] == "pexit":
+            lines.append('(ev/write ((procs %d) :in) "\\n") (ev/sleep 0.2)' % a[1])
         else:
             lines.append("(ev/sleep %s)" % (a[1] + 0.05))
     lines.append("# model: %s" % what.replace("\n", " "))
